@@ -521,3 +521,67 @@ Proof.
     intros h r P Hc. vm_compute in P. inversion P; subst. vm_compute. discriminate.
   - vm_compute. repeat split; reflexivity.
 Qed.
+
+(* ------------------------------------------------------------------------------------
+   Loop errors on REACHABLE states: the hypothesis NDH of C15_loop_errors is discharged
+   (Sched/Inert*.v; vocabulary and the invariant XI in Props/C09.v, C09_finished_tasks_inert).
+   nec s0 acts = no ADo operation and no library call of any step of the run resolves, fails or
+   cancels-as-a-future the future that belongs to a task (run-checked; implied by the syntactic
+   condition Forall act_nf acts).  For any ready queue with QSpec and any start state satisfying
+   Inv09 and XI with an empty error list - the initial state of each of the three loop models
+   does (second conjunct) - in the state s reached by any actions_ok + nec run:
+   (1) the loop has never recorded InvalidStateError; (2) the next loop step adds no error, or the
+   ValueError of a _task_reinsert callback whose task is not queued; (3),(4) task_throw and
+   `await task_interrupt` never change the error list and never queue a handle of a finished task,
+   whatever their outcome; (5) (queues with QNext) the step delivering an accepted interrupt adds
+   no error.  (6) the same for throws / interrupts issued inside a step (any state with InvC c
+   and XI c). *)
+From Asynkit Require Import Sched.InterruptNext Sched.PrioQueueProofs Sched.PrioQueueBoost
+     Sched.InertBase Sched.InertLib Sched.InertRun Sched.InertStatic Sched.InertThms.
+
+Theorem C15_loop_errors_reachable :
+  (forall qok, QSpec qok -> forall s0 acts,
+     Inv09 qok s0 -> XI None s0 -> errors s0 = [] -> actions_ok s0 acts -> nec s0 acts ->
+     let s := fold_left do_action acts s0 in
+     ~ In LEInvalidState (errors s) /\
+     (errors (run_one s) = errors s \/
+      (errors (run_one s) = errors s ++ [LEValue] /\
+       exists h r t p, rq_popleft (ready s) = Some (h, r) /\ geth s h = mkH (HReinsert t p) false /\
+                       rq_find r (task_key s t) true = None)) /\
+     (forall t e s1 r, task_throw s t e = (s1, r) -> errors s1 = errors s /\ NDH s1) /\
+     (forall t t' e s' r, lib_call t (OTaskInterrupt t' e) s = (s', r) ->
+                          errors s' = errors s /\ NDH s') /\
+     (QNext qok -> forall t t' e s',
+        lib_call t (OTaskInterrupt t' e) s = (s', LSusp YNone [InSleep0]) ->
+        errors s' = errors s /\ errors (run_one s') = errors s)) /\
+  ((forall factor draws lks cds nev, let s0 := init_st false factor draws lks cds nev in
+      Inv09 qok_list s0 /\ XI None s0 /\ errors s0 = []) /\
+   (forall draws lks cds nev, let s0 := init_st true 0 draws lks cds nev in
+      Inv09 qok_pos s0 /\ XI None s0 /\ errors s0 = []) /\
+   (forall factor draws lks cds nev, let s0 := init_st true factor draws lks cds nev in
+      Inv09 qok_boost s0 /\ XI None s0 /\ errors s0 = [])) /\
+  (forall qok, QSpec qok -> forall c s, InvC qok c s -> XI c s ->
+     (forall t e s1 r, task_throw s t e = (s1, r) ->
+        InvC qok c s1 /\ XI c s1 /\ NDH s1 /\ errors s1 = errors s) /\
+     (forall t t' e s' r, lib_call t (OTaskInterrupt t' e) s = (s', r) ->
+        InvC qok c s' /\ XI c s' /\ NDH s' /\ errors s' = errors s)) /\
+  (forall prio factor draws lks cds nev acts,
+     Forall act_nf acts -> nec (init_st prio factor draws lks cds nev) acts).
+Proof.
+  split; [exact loop_errors_reach|]. split; [exact inert_init|]. split; [|exact nec_static_init].
+  intros qok QS c s I X. split.
+  - intros t e s1 r E. exact (inert_throw qok QS c s t e s1 r I X E).
+  - intros t t' e s' r E. exact (inert_interrupt qok QS c s t t' e s' r I X E).
+Qed.
+Print Assumptions C15_loop_errors_reachable.
+
+(* non-vacuity: the run of C09_example_inert satisfies the hypotheses on the list loop (nec by
+   computation: a task completes a plain future with set_result); no error is recorded *)
+Example C15_example_reachable :
+  actions_ok ix_s0 ix_acts /\ nec ix_s0 ix_acts /\ ~ In LEInvalidState (errors ix_state) /\
+  errors ix_state = [] /\ QNext qok_list /\ QNext qok_pos.
+Proof.
+  split; [exact ix_actions_ok|]. split; [exact ix_nec|].
+  split; [|split; [vm_compute; reflexivity|split; [exact QNext_list|exact QNext_pos]]].
+  apply (inert_reach_list 0 [] [] [] 0 ix_acts ix_actions_ok ix_nec).
+Qed.
